@@ -42,7 +42,7 @@ PROBES = [
     "export_raised_both", "mixed_directions", "labella_options_differ",
     "export_multilayer", "export_ge_3_layers", "export_with_lineSpacing",
     "abort_inside_export", "abort_inside_construct", "peer_failed_inside_construct",
-    "export_to_path_written_before", "poked_between_exports",
+    "export_to_path_written_before", "poked_between_exports", "option_changed_on_live_timeline",
 ]
 
 RULE = (
@@ -78,6 +78,11 @@ COMPONENTS = {
     "stub": ["datetime.date.today() (simulated clock)", "open/write (in-memory file system with fault points)",
              "tempfile.TemporaryDirectory, shutil.copy2 (in-memory)", "subprocess.check_output -> scripted latexmk"],
 }
+
+# options a user may change on a live timeline (they are read at export time)
+TWEAKS = [("layerGap", [30, 100]), ("dotRadius", [2, 6]), ("showTicks", [True, False]), ("showBorder", [True, False]),
+          ("dotColor", ["#0f0", "#123456"]), ("linkColor", ["#00f"]), ("labelBgColor", ["#654321"]),
+          ("labelTextColor", ["#eee"]), ("textXOffset", ["0.5em"]), ("textYOffset", ["1.2em"])]
 
 PALETTE = ["#1f77b4", "#ff7f0e", "#2ca02c", "#d62728", "#9467bd", "#8c564b", "#e377c2", "#7f7f7f", "#bcbd22", "#17becf"]
 
@@ -148,7 +153,8 @@ def gen_spec(rng, slot_index, swarm):
                 it["time"] = ["t", t.time().replace(microsecond=0).isoformat()]
         r = rng.random()
         if r < 0.45:
-            it["text"] = rng.choice(["a", "Label %d" % i, "Ünïcode", "x y z", "The Phantom Menace"])
+            it["text"] = rng.choice(["a", "Label %d" % i, "Ünïcode", "x y z", "The Phantom Menace",
+                                     "Rene\u0301e", "Rene\u0301l", "Zoe\u0308", "na\u0308ive", "a\u0301b"])
             if rng.random() < swarm["peer_p"]:
                 pass  # no width: measured by the (scripted) latexmk at construction
             else:
@@ -304,8 +310,11 @@ def gen_plan(rng, tier):
             if fault and fault["kind"] in ("disk_copy", "peer_exit", "peer_missing"):
                 build_pdf = True  # place the fault inside an operation that reaches the peer
             ops.append(["export_file", i, "/simfs/out%d_%d%s" % (i, fileno, ext), build_pdf, fault])
-        elif r < 0.69:
+        elif r < 0.67:
             ops.append(["poke", i])
+        elif r < 0.69:
+            key, vals = rng.choice(TWEAKS)
+            ops.append(["tweak", i, key, rng.choice(vals)])
         elif r < 0.75:
             ops.append(["construct", i])  # a new object from the same spec
         elif r < 0.85:
@@ -445,6 +454,7 @@ def _run(plan):
     failed_export = [False] * n
     replaced = [False] * n
     ever_constructed = [False] * n
+    tweaks = [[] for _ in range(n)]
     events = []
     log = []
     for step, op in enumerate(plan["ops"]):
@@ -458,6 +468,16 @@ def _run(plan):
                 bump("fault:clock_jump:fired")
                 bump("probe:clock_crossed_midnight_between_ops")
             bump("simulated_seconds", op[1])
+        elif kind == "tweak":
+            # the user changes an option of a live timeline (there is no setter: the
+            # options dict is the interface); it belongs to that timeline's options from now on
+            i = op[1]
+            if objs[i] is None:
+                outcome = "skipped"
+            else:
+                objs[i].options[op[2]] = op[3]
+                tweaks[i].append([op[2], op[3]])
+                bump("probe:option_changed_on_live_timeline")
         elif kind == "poke":
             # the user calls helpers and reads attributes between exports; nothing
             # here may change what any timeline exports later
@@ -478,6 +498,12 @@ def _run(plan):
                     sc = tl.options["scale"]
                     sc.domain(), sc.range()
                     list(sc.ticks())
+                    k = 2 + (step % 4)
+                    list(sc.ticks(k))
+                    try:
+                        sc.tickFormat(k)
+                    except TypeError:
+                        sc.tickFormat()
                 except Exception as e:
                     outcome = "raise:" + type(e).__name__
                 for j in range(n):
@@ -550,6 +576,7 @@ def _run(plan):
             if peer.calls > calls0:
                 bump("probe:peer_measured_text", peer.calls - calls0)
             constructed_step[i] = step
+            tweaks[i] = []
             ever_constructed[i] = True
             replaced[i] = False
             exports_done[i] = 0
@@ -657,6 +684,7 @@ def _run(plan):
                     bump("probe:replace_then_export")
                 outcome = res["ret"][0] if res["ret"][0] != "raise" else "raise:" + res["ret"][1]
                 events.append({"step": step, "slot": i, "kind": kind, "spec": spec, "readings": readings[i],
+                               "tweaks": [list(t) for t in tweaks[i]],
                                "op": op[:4] if kind == "export_file" else op[:2], "result": res,
                                "faulted": faulted, "window_foreign": window, "reexport": exports_done[i],
                                "after_failed_export": failed_export[i]})
@@ -724,6 +752,8 @@ def _reference(job):
     except Exception as e:
         return {"construct": "raise:" + type(e).__name__}
     out = {"construct": "ok"}
+    for key, value in job.get("tweaks") or []:
+        tl.options[key] = value
     if job.get("op") is not None:
         out["result"] = _do_export(tl, job["spec"], fs, job["op"])
     return out
@@ -767,8 +797,8 @@ def execute(plan):
             key = h64([ev["spec"], ev["readings"], None])
             job = {"spec": ev["spec"], "readings": ev["readings"], "op": None}
         else:
-            key = h64([ev["spec"], ev["readings"], ev["op"][0], ev["op"][2:]])
-            job = {"spec": ev["spec"], "readings": ev["readings"], "op": ev["op"]}
+            key = h64([ev["spec"], ev["readings"], ev["op"][0], ev["op"][2:], ev.get("tweaks")])
+            job = {"spec": ev["spec"], "readings": ev["readings"], "op": ev["op"], "tweaks": ev.get("tweaks")}
         if ev["faulted"]:
             counters["exports_exempt_hit_by_fault"] = counters.get("exports_exempt_hit_by_fault", 0) + 1
             continue
